@@ -64,6 +64,33 @@ def _client(args):
     return problems, ok_shared
 
 
+def _hostile(args):
+    """a misbehaving client alongside the well-behaved ones: requests whose receive fails in the daemon (bad magic, short
+    header then hang-up, oversize length, wrong type, immediate close)"""
+    sock, t_end, seed = args
+    import random, socket as _s, struct as _st
+    rng = random.Random(seed)
+    n = 0
+    shapes = [b"\0\0\0\0" + bytes(7), rig.MAGIC_BYTES + b"\x04", rig.hdr(2, 0, 0x7FFFFFFF), rig.hdr(9, 0, 4) + b"abcd", b"",
+              rig.hdr(4, 0, 100) + b"short body"]
+    while time.time() < t_end:
+        try:
+            c = _s.socket(_s.AF_UNIX, _s.SOCK_STREAM)
+            c.settimeout(1.0)
+            c.connect(sock)
+            c.sendall(rng.choice(shapes))
+            if rng.random() < 0.5:
+                try:
+                    c.recv(64)
+                except OSError:
+                    pass
+            c.close()
+        except OSError:
+            pass
+        n += 1
+    return n
+
+
 def _hammer(args):
     """refused decodes from one identity, back to back: every reply must name THIS client's ids"""
     sock, idx, n, cred = args
@@ -137,6 +164,9 @@ def run_load(ctx, exe, label, nthreads, nclients, rounds, sighup):
     try:
         res = pool.map_async(_client, [(d.sock, i, rounds, shared["data"], ctx.seed * 1000 + i) for i in range(nclients)])
         t0 = time.time()
+        # misbehaving clients at the same time (their descriptors are closed on the daemon's error path while others connect)
+        hpool = multiprocessing.Pool(3)
+        hres = hpool.map_async(_hostile, [(d.sock, t0 + 2.0 + rounds, ctx.seed * 31 + k) for k in range(3)])
         while not res.ready():
             if sighup:
                 d.write_nss({"groups": [(700, ["u%d" % i for i in range(0, 40, 2 + int(time.time() * 10) % 3)])], "users": db["users"]})
@@ -149,6 +179,11 @@ def run_load(ctx, exe, label, nthreads, nclients, rounds, sighup):
     finally:
         pool.terminate()
         pool.join()
+        try:
+            hpool.terminate()
+            hpool.join()
+        except Exception:
+            pass
     succ = 0
     for p, ok in out:
         problems += p
@@ -217,6 +252,22 @@ def run(ctx):
             found.append((label, "%s reported by -fsanitize=%s in the race phase: %s" % ("data race" if "data race" in rep else "sanitizer error", san, loc),
                           {"config": label, "report": rep[:4000]}))
         ctx.log("%s: %d problems, sanitizer report %d bytes" % (label, len(problems), len(rep)))
+    # replies that cannot be delivered while the same credential is being presented by others: only an undelivered SUCCESS
+    # gives the record back (C13); an undelivered 'replayed' must not make the credential decodable again (sequential order exists)
+    from props import c05_live
+    try:
+        orc = vlib.build_oracle(ctx, "cred")
+        if orc:
+            cru = credcorr.CredRig(ctx, builds[1][1], orc, tag="c11und", nthreads=4)
+            if cru.ok:
+                uf, ud = [], {}
+                c05_live.undelivered_phase(ctx, cru, uf, ud)
+                dist["undelivered"] = ud.get("undelivered", 0)
+                for f in uf:
+                    found.append(("undelivered", f["why"], f))
+                cru.stop()
+    except rig.DaemonUnresponsive:
+        raise
     ctx.cov["input_distribution"] = dist
     seen = set()
     for label, why, obj in found:
